@@ -2343,3 +2343,31 @@ M("C12", "span-id-unique-per-trace-only", DM,
   "    event_id: Mapped[str] = mapped_column(String, unique=True, nullable=False)",
   "    event_id: Mapped[str] = mapped_column(String, index=True, nullable=False)", "R12.5",
   "children joined by a bare id that is no longer a key (seed C12-h)")
+
+# ============================================================ wave i (C16: hand-rolled memo)
+_MEMO_OLD = '''    return datetime_to_pv_string(
+        datetime.fromtimestamp(unix_nano / 1e9, tz=UTC)
+    )
+'''
+_MEMO_NEW = '''    key = %s
+    pv_string = _PV_STRING_CACHE.get(key)
+    if pv_string is None:
+        pv_string = datetime_to_pv_string(
+            datetime.fromtimestamp(unix_nano / 1e9, tz=UTC)
+        )
+        _PV_STRING_CACHE[key] = pv_string
+    return pv_string
+'''
+_MEMO_TABLE = ('def unix_nano_to_pv_string(unix_nano: int) -> str:',
+               '_PV_STRING_CACHE: dict[int, str] = {}\n\n\n'
+               'def unix_nano_to_pv_string(unix_nano: int) -> str:')
+for _P, _R in (("C16", "R16.4"), ("C08", "R8.9")):
+    MM(_P, "memo-key-coarser-than-value", [
+        (UT, _MEMO_TABLE[0], _MEMO_TABLE[1]),
+        (UT, _MEMO_OLD, _MEMO_NEW % "unix_nano // 10**3")], _R,
+       "memo keyed by the truncated microsecond over a value rounded from "
+       "the nanosecond (seed C16-i)")
+    TT(_P, "twin-memo-full-key", [
+        (UT, _MEMO_TABLE[0], _MEMO_TABLE[1]),
+        (UT, _MEMO_OLD, _MEMO_NEW % "unix_nano")],
+       "memo keyed by the whole argument")
